@@ -317,4 +317,82 @@ mod verif_cex_commit {
         drop(db);
         let _ = std::fs::remove_file(&p);
     }
+
+    // ---- C11: the FILE EXTENSION of a commit fails (RLIMIT_FSIZE makes fallocate answer EFBIG; no shim needed): the commit
+    // must answer Err without panicking, the handle must show the state before it, and the SAME handle must keep committing
+    // correctly (retry of the same transaction, a further one, check(), reopen)
+    #[test]
+    fn cex_commit_extension_fault() {
+        #[repr(C)] struct RLimit { cur: u64, max: u64 }
+        extern "C" { fn getrlimit(res: i32, r: *mut RLimit) -> i32; fn setrlimit(res: i32, r: *const RLimit) -> i32; fn signal(sig: i32, h: usize) -> usize; }
+        const RLIMIT_FSIZE: i32 = 1; const SIGXFSZ: i32 = 25; const SIG_IGN: usize = 1;
+        for &(warm, nkeys) in &[(0u32, 300u32), (20, 300), (20, 3000)] {
+            let p = tmp(&format!("ext-fault-{}-{}", warm, nkeys));
+            let db = OpenOptions::new().pagesize(PS).open(&p).unwrap();
+            if warm > 0 { put_keys(&db, 5000, 5000 + warm, 100, 3).unwrap(); }
+            let before = contents(&db);
+            let len0 = std::fs::metadata(&p).unwrap().len();
+            let mut old = RLimit { cur: 0, max: 0 };
+            unsafe { signal(SIGXFSZ, SIG_IGN); getrlimit(RLIMIT_FSIZE, &mut old); setrlimit(RLIMIT_FSIZE, &RLimit { cur: len0 + 4096, max: old.max }); }
+            let r = std::panic::catch_unwind(std::panic::AssertUnwindSafe(|| put_keys(&db, 0, nkeys, 300, 0)));
+            unsafe { setrlimit(RLIMIT_FSIZE, &old); }
+            let what = format!("history: file of {} bytes (page size 1024, {} keys committed), then a commit of {} keys of 300 bytes whose FILE EXTENSION fails (EFBIG), then transactions on the same handle", len0, warm, nkeys);
+            match r {
+                Err(_) => { println!("CEX Tx::commit (C11 no panic): {}: the failing commit panicked", what); panic!("c11-ext-panic"); }
+                Ok(Ok(())) => { println!("CEX Tx::commit (C11 error reported): {}: commit returned Ok although the file could not be extended", what); panic!("c11-ext-ok"); }
+                Ok(Err(_)) => {}
+            }
+            let later = std::panic::catch_unwind(std::panic::AssertUnwindSafe(|| {
+                let c = contents(&db);
+                if c != before { return Err(format!("after the failed commit the handle shows {} entries, before it {}", c.len(), before.len())); }
+                db.check().map_err(|e| format!("check() fails after the failed commit: {:?}", e))?;
+                put_keys(&db, 0, nkeys, 300, 0).map_err(|e| format!("the retry fails: {:?}", e))?;
+                let c1 = contents(&db);
+                if c1.len() != before.len() + nkeys as usize { return Err(format!("after the retry the handle shows {} entries, expected {}", c1.len(), before.len() + nkeys as usize)); }
+                db.check().map_err(|e| format!("check() fails after the retry: {:?}", e))?;
+                put_keys(&db, 100, 140, 500, 7).map_err(|e| format!("a further transaction fails: {:?}", e))?;
+                let c2 = contents(&db);
+                db.check().map_err(|e| format!("check() fails after a further transaction: {:?}", e))?;
+                Ok::<_, String>(c2)
+            }));
+            let c2 = match later {
+                Ok(Ok(c)) => c,
+                Ok(Err(e)) => { println!("CEX Tx::commit (C11 later transactions): {}: {}", what, e); panic!("c11-ext-later"); }
+                Err(_) => { println!("CEX Tx::commit (C11 later transactions): {}: the handle panics in a later transaction", what); panic!("c11-ext-later-panic"); }
+            };
+            drop(db);
+            let db = OpenOptions::new().pagesize(PS).open(&p).unwrap();
+            if contents(&db) != c2 { println!("CEX Tx::commit (C11 after reopen): {}: the reopened file differs from what the handle showed", what); panic!("c11-ext-reopen"); }
+            drop(db);
+            let _ = std::fs::remove_file(&p);
+        }
+    }
+
+    // ---- C10: a workload whose live data stays bounded reaches a plateau in file pages, ALSO when the free list is longer
+    // than one page (a bulk delete), and across close + reopen
+    #[test]
+    fn cex_commit_growth_plateau() {
+        let hwm = |db: &DB| -> u64 { db.inner.meta().unwrap().num_pages };
+        for &(bulk, vlen) in &[(60u32, 300usize), (900, 300), (300, 3000)] {
+            let p = tmp(&format!("plateau-{}-{}", bulk, vlen));
+            let mut db = OpenOptions::new().pagesize(PS).open(&p).unwrap();
+            put_keys(&db, 0, bulk, vlen, 1).unwrap();
+            del_keys(&db, 0, bulk).unwrap();
+            put_keys(&db, 0, 20, 100, 2).unwrap();
+            let peak = hwm(&db);
+            let mut worst = peak;
+            for round in 0..120u32 {
+                put_keys(&db, (round % 4) * 5, (round % 4) * 5 + 10, 100 + (round % 3) as usize * 40, round as u8).unwrap();
+                worst = worst.max(hwm(&db));
+                if round == 60 { drop(db); db = OpenOptions::new().pagesize(PS).open(&p).unwrap(); }
+            }
+            if worst > peak + 24 {
+                println!("CEX C10 (file growth bounded by live data): history: {} keys of {} bytes put and deleted (free list of about {} ids at page size 1024), then 120 transactions that overwrite the same 20 small keys (reopen after 60): the page high-water mark went from {} to {}", bulk, vlen, peak, peak, worst);
+                panic!("c10-growth");
+            }
+            db.check().unwrap();
+            drop(db);
+            let _ = std::fs::remove_file(&p);
+        }
+    }
 }
